@@ -30,22 +30,33 @@ theorem events_truthful (cfg : Cfg) (hnd : cfg.dryRun = false) (flt : Faults) (s
   -- create and update share the argument
   have cu : ∀ a, (a = .create ∨ a = .update) → (a, p) ∈ (runF cfg flt scan dst n).events →
       ∃ e ∈ scanFilter cfg scan, e.rel = p ∧ (planEntry cfg dst e).act = a ∧
-        (runF cfg flt scan dst n).dst.get? p ≠ none := by
+        (runF cfg flt scan dst n).dst.get? p ≠ none ∧
+        (e.kind = .dir → dst.get? p = none ∨ dst.get? p = some .dir) := by
     intro a ha hev
     obtain ⟨hr, t, ht, hok, hact, hrel⟩ := event_task hev
     have hnd' : t.act ≠ .delete := by rw [hact]; rcases ha with h | h <;> rw [h] <;> simp
     have hns : t.act ≠ .skip := by rw [hact]; rcases ha with h | h <;> rw [h] <;> simp
     obtain ⟨e, he, rfl⟩ := entry_of_task ht hnd'
     rw [planEntry_rel] at hrel
-    refine ⟨e, he, hrel, hact, ?_⟩
     have tp := run_task_post hnd flt scan dst n hu hdel hino hok
-    rw [(runF_of_not_refused hr).1, ← hrel]
-    exact taskPost_present tp hns (planEntry_payload_of_cu hns)
-      (by rw [planEntry_rel]; exact hnr e (mem_of_mem_scanFilter he))
+    have hne : (planEntry cfg dst e).rel ≠ [] := by rw [planEntry_rel]; exact hnr e (mem_of_mem_scanFilter he)
+    refine ⟨e, he, hrel, hact, ?_, fun hkd => ?_⟩
+    · rw [(runF_of_not_refused hr).1, ← hrel]
+      exact taskPost_present tp hns (planEntry_payload_of_cu hns) hne
+    · have := tp.dir_pre hns (planEntry_payload_dir hkd) hne
+      rw [planEntry_rel, hrel] at this; exact this
   refine ⟨fun hev => ?_, fun hev => ?_, fun hev => ?_, fun hev => ?_⟩
-  · obtain ⟨e, _, hrel, hact, hres⟩ := cu .create (Or.inl rfl) hev
-    exact ⟨hrel ▸ planEntry_create_none hact, hres⟩
-  · obtain ⟨e, _, hrel, hact, hres⟩ := cu .update (Or.inr rfl) hev
+  · obtain ⟨e, _, hrel, hact, hres, hdir⟩ := cu .create (Or.inl rfl) hev
+    refine ⟨?_, hres⟩
+    by_cases hkd : e.kind = .dir
+    · rcases hdir hkd with h | h
+      · exact h
+      · -- a directory already there is planned as `skip`, not `create`
+        rcases planEntry_dir_act (cfg := cfg) (dst := dst) hkd with ⟨_, h'⟩ | ⟨h', _⟩
+        · rw [h'] at hact; cases hact
+        · exact absurd (hrel ▸ h) h'
+    · exact hrel ▸ planEntry_create_none hkd hact
+  · obtain ⟨e, _, hrel, hact, hres, _⟩ := cu .update (Or.inr rfl) hev
     exact ⟨hrel ▸ planEntry_update_some hact, hres⟩
   · obtain ⟨hr, t, ht, hok, hact, hrel⟩ := event_task hev
     obtain ⟨_, htd⟩ := deletion_of_task ht hact
